@@ -37,48 +37,82 @@ Lemma codes_len es prev : length (codes prev es) = length es.
 Proof. revert prev; induction es; intro; cbn; auto. Qed.
 Lemma deltas_ok es last : Forall (fun v => v < 2^64) (deltas last es).
 Proof. revert last; induction es; intro; cbn; constructor; auto using w64_lt. Qed.
-Lemma codes_ok es prev : Forall (fun v => v < 2^64) (codes prev es).
+Lemma codes_lt es prev : Forall (fun v => v < 2^64) (codes prev es).
 Proof.
   revert prev; induction es as [|e r IH]; intro prev; cbn; constructor; auto.
   unfold off_code. destruct prev as [p|]; [destruct (off e =? w64 (off p + len p))|]; try apply w64_lt. change (2^64) with 18446744073709551616; lia.
 Qed.
 
+Lemma w64_id_delta last t : last < 2^64 -> t < 2^64 -> w64 (last + w64 (t + 2^64 - last)) = t.
+Proof.
+  intros Hl Ht. unfold w64. change (2^64) with 18446744073709551616 in *.
+  destruct (N.le_gt_cases last t).
+  - replace (t + 18446744073709551616 - last) with ((t - last) + 1 * 18446744073709551616) by lia.
+    rewrite N.mod_add by lia. rewrite (N.mod_small (t - last)) by lia.
+    replace (last + (t - last)) with t by lia. apply N.mod_small; lia.
+  - rewrite (N.mod_small (t + 18446744073709551616 - last)) by lia.
+    replace (last + (t + 18446744073709551616 - last)) with (t + 1 * 18446744073709551616) by lia.
+    rewrite N.mod_add by lia. apply N.mod_small; lia.
+Qed.
+
+(* what the decoder makes of an offset code: either form of the spec is read back to the offset *)
+Definition code_reads (prev:option entry) (e:entry) (c:N) : Prop :=
+  match prev with
+  | Some p => (if c =? 0 then w64 (off p + len p) else w64 (c + 2^64 - 1)) = off e
+  | None => w64 (c + 2^64 - 1) = off e end.
+Inductive codes_read : option entry -> list entry -> list N -> Prop :=
+| cr_nil p : codes_read p [] []
+| cr_cons p e r c cs : code_reads p e c -> codes_read (Some e) r cs -> codes_read p (e :: r) (c :: cs).
+
+Lemma build_general : forall es last prev cs,
+  Forall entry_ok es -> last < 2^64 -> codes_read prev es cs ->
+  build last prev (deltas last es) (map run es) (map len es) cs = es.
+Proof.
+  induction es as [|e r IH]; intros last prev cs Hok Hlast Hc.
+  - inversion Hc; reflexivity.
+  - inversion Hok as [|? ? He Hr]; subst. destruct He as (Ht & Ho & Hl & Hrn).
+    inversion Hc as [|? ? ? c cs' Hcr Hrest]; subst.
+    cbn [deltas map build].
+    rewrite (w64_id_delta last (tid e)) by assumption.
+    assert (El: w32 (len e) = len e) by (apply N.mod_small; assumption).
+    assert (Er: w32 (run e) = run e) by (apply N.mod_small; assumption).
+    rewrite El, Er.
+    assert (Eoff: match prev with
+                  | Some p => if c =? 0 then w64 (off p + len p) else w64 (c + 2^64 - 1)
+                  | None => w64 (c + 2^64 - 1) end = off e).
+    { unfold code_reads in Hcr. destruct prev; exact Hcr. }
+    rewrite Eoff.
+    destruct e as [t o l rn]. cbn [tid off len run] in *. f_equal.
+    apply (IH t (Some (mkE t o l rn))); assumption.
+Qed.
+
+Lemma plain_code_reads prev e : off e < 2^64 - 1 -> code_reads prev e (w64 (off e + 1)).
+Proof.
+  intro Ho.
+  assert (Hplus: w64 (off e + 1) = off e + 1) by (unfold w64; apply N.mod_small; change (2^64) with 18446744073709551616 in *; lia).
+  assert (Hback: w64 (off e + 1 + 2^64 - 1) = off e).
+  { unfold w64. change (2^64) with 18446744073709551616 in *. replace (off e + 1 + 18446744073709551616 - 1) with (off e + 1 * 18446744073709551616) by lia.
+    rewrite N.mod_add by lia. apply N.mod_small; lia. }
+  unfold code_reads. rewrite Hplus. destruct prev as [p|]; [|exact Hback].
+  destruct (N.eqb_spec (off e + 1) 0); [lia|exact Hback].
+Qed.
+
+Lemma codes_codes_read : forall es prev, Forall entry_ok es -> codes_read prev es (codes prev es).
+Proof.
+  induction es as [|e r IH]; intros prev Hok; cbn [codes]; [constructor|].
+  inversion Hok as [|? ? He Hr]; subst. destruct He as (Ht & Ho & Hl & Hrn).
+  constructor; [|apply IH; assumption].
+  unfold off_code. destruct prev as [p|].
+  - destruct (N.eqb_spec (off e) (w64 (off p + len p))) as [E|NE].
+    + unfold code_reads. rewrite N.eqb_refl. symmetry. exact E.
+    + apply plain_code_reads. exact Ho.
+  - apply plain_code_reads. exact Ho.
+Qed.
+
 Lemma build_roundtrip : forall es last prev,
   Forall entry_ok es -> last < 2^64 ->
   build last prev (deltas last es) (map run es) (map len es) (codes prev es) = es.
-Proof.
-  induction es as [|e r IH]; intros last prev Hok Hlast; [reflexivity|].
-  inversion Hok as [|? ? He Hr]; subst. destruct He as (Ht & Ho & Hl & Hrn).
-  cbn [deltas map codes build].
-  assert (Eid: w64 (last + w64 (tid e + 2^64 - last)) = tid e).
-  { unfold w64. change (2^64) with 18446744073709551616 in *.
-    destruct (N.le_gt_cases last (tid e)).
-    - replace (tid e + 18446744073709551616 - last) with ((tid e - last) + 1 * 18446744073709551616) by lia.
-      rewrite N.mod_add by lia. rewrite (N.mod_small (tid e - last)) by lia.
-      replace (last + (tid e - last)) with (tid e) by lia. apply N.mod_small; lia.
-    - rewrite (N.mod_small (tid e + 18446744073709551616 - last)) by lia.
-      replace (last + (tid e + 18446744073709551616 - last)) with (tid e + 1 * 18446744073709551616) by lia.
-      rewrite N.mod_add by lia. apply N.mod_small; lia. }
-  rewrite Eid.
-  assert (El: w32 (len e) = len e) by (apply N.mod_small; assumption).
-  assert (Er: w32 (run e) = run e) by (apply N.mod_small; assumption).
-  rewrite El, Er.
-  assert (Eoff: match prev with
-                | Some p => if off_code prev e =? 0 then w64 (off p + len p) else w64 (off_code prev e + 2^64 - 1)
-                | None => w64 (off_code prev e + 2^64 - 1) end = off e).
-  { assert (Hplus: w64 (off e + 1) = off e + 1) by (unfold w64; apply N.mod_small; change (2^64) with 18446744073709551616 in *; lia).
-    assert (Hback: w64 (off e + 1 + 2^64 - 1) = off e).
-    { unfold w64. change (2^64) with 18446744073709551616 in *. replace (off e + 1 + 18446744073709551616 - 1) with (off e + 1 * 18446744073709551616) by lia.
-      rewrite N.mod_add by lia. apply N.mod_small; lia. }
-    unfold off_code. destruct prev as [p|].
-    - destruct (N.eqb_spec (off e) (w64 (off p + len p))) as [E|NE].
-      + rewrite N.eqb_refl. symmetry. exact E.
-      + rewrite Hplus. destruct (N.eqb_spec (off e + 1) 0); [lia|]. exact Hback.
-    - rewrite Hplus. exact Hback. }
-  rewrite Eoff.
-  destruct e as [t o l rn]. cbn [tid off len run] in *. f_equal.
-  apply (IH t (Some (mkE t o l rn))); assumption.
-Qed.
+Proof. intros. apply build_general; auto using codes_codes_read. Qed.
 
 Theorem C03_roundtrip_raw es r : Forall entry_ok es -> N.of_nat (length es) < 2^64 ->
   deserialize_entries (serialize_entries es ++ r) = es.
@@ -93,6 +127,82 @@ Proof.
   rewrite <- (map_length len es) at 1. rewrite read_n_puts.
   2:{ apply Forall_forall. intros v Hv. apply in_map_iff in Hv. destruct Hv as [e [<- He]].
       rewrite Forall_forall in Hok. destruct (Hok e He) as (_ & _ & Hl & _). change (2^32) with 4294967296 in *. change (2^64) with 18446744073709551616. lia. }
-  rewrite <- (codes_len es None) at 1. rewrite read_n_puts by apply codes_ok.
+  rewrite <- (codes_len es None) at 1. rewrite read_n_puts by apply codes_lt.
   apply build_roundtrip; [assumption|]. change (2^64) with 18446744073709551616; lia.
+Qed.
+
+(* ---- the declarative wire format *)
+Definition entry_fits (e:entry) : Prop := off e + len e < 2^64.
+Lemma codes_ok_read : forall prev es cs, codes_ok prev es cs -> Forall entry_ok es -> Forall entry_fits es ->
+  match prev with Some p => off p + len p < 2^64 | None => True end ->
+  Forall (fun v => v < 2^64) cs /\ codes_read prev es cs.
+Proof.
+  intros prev es cs Hc. induction Hc as [p|p e r cs Hc IH|p e r cs Heq Hc IH]; intros Hok Hf Hp.
+  - split; constructor.
+  - inversion Hok as [|? ? He Hr]; subst. destruct He as (Ht & Ho & Hl & Hrn).
+    inversion Hf as [|? ? Hfe Hfr]; subst.
+    destruct IH as [IH1 IH2]; [assumption|assumption|exact Hfe|].
+    split.
+    + constructor; [change (2^64) with 18446744073709551616 in *; lia|assumption].
+    + constructor; [|assumption].
+      replace (off e + 1) with (w64 (off e + 1)).
+      * apply plain_code_reads. exact Ho.
+      * unfold w64. apply N.mod_small. change (2^64) with 18446744073709551616 in *. lia.
+  - inversion Hok as [|? ? He Hr]; subst. destruct He as (Ht & Ho & Hl & Hrn).
+    inversion Hf as [|? ? Hfe Hfr]; subst.
+    destruct IH as [IH1 IH2]; [assumption|assumption|exact Hfe|].
+    split.
+    + constructor; [change (2^64) with 18446744073709551616; lia|assumption].
+    + constructor; [|assumption]. unfold code_reads. cbn [N.eqb]. unfold w64. rewrite N.mod_small by exact Hp. symmetry; exact Heq.
+Qed.
+
+Lemma sdeltas_deltas : forall es last, ascending_from last es -> Forall entry_ok es -> sdeltas last es = deltas last es.
+Proof.
+  induction es as [|e r IH]; intros last Ha Hok; [reflexivity|].
+  destruct Ha as [Hle Ha]. inversion Hok as [|? ? He Hr]; subst. destruct He as (Ht & _).
+  cbn [sdeltas deltas]. rewrite IH by assumption. f_equal.
+  unfold w64. change (2^64) with 18446744073709551616 in *.
+  replace (tid e + 18446744073709551616 - last) with ((tid e - last) + 1 * 18446744073709551616) by lia.
+  rewrite N.mod_add by lia. symmetry. apply N.mod_small. lia.
+Qed.
+
+Lemma codes_codes_ok : forall es prev, Forall entry_ok es -> Forall entry_fits es ->
+  match prev with Some p => off p + len p < 2^64 | None => True end ->
+  codes_ok prev es (codes prev es).
+Proof.
+  induction es as [|e r IH]; intros prev Hok Hf Hp; cbn [codes]; [constructor|].
+  inversion Hok as [|? ? He Hr]; subst. destruct He as (Ht & Ho & Hl & Hrn).
+  inversion Hf as [|? ? Hn Hfr]; subst. unfold entry_fits in Hn.
+  assert (Hplus: w64 (off e + 1) = off e + 1) by (unfold w64; apply N.mod_small; change (2^64) with 18446744073709551616 in *; lia).
+  unfold off_code. destruct prev as [p|].
+  - destruct (N.eqb_spec (off e) (w64 (off p + len p))) as [E|NE].
+    + apply co_short; [|apply IH; assumption]. unfold w64 in E. rewrite N.mod_small in E by exact Hp. exact E.
+    + rewrite Hplus. apply co_plain. apply IH; assumption.
+  - rewrite Hplus. apply co_plain. apply IH; assumption.
+Qed.
+
+Theorem encoder_is_spec es : Forall entry_ok es -> Forall entry_fits es -> ascending_from 0 es -> wire_repr (serialize_entries es) es.
+Proof.
+  intros Hok Hf Ha. exists (codes None es). split; [apply codes_codes_ok; auto|].
+  unfold serialize_entries, puts. rewrite ids_col_puts, !col_puts, offs_col_puts, sdeltas_deltas by assumption. reflexivity.
+Qed.
+
+Theorem decoder_reads_spec b es r : wire_repr b es -> Forall entry_ok es -> Forall entry_fits es -> ascending_from 0 es ->
+  N.of_nat (length es) < 2^64 -> deserialize_entries (b ++ r) = es.
+Proof.
+  intros (cs & Hc & ->) Hok Hf Ha Hn.
+  destruct (codes_ok_read None es cs Hc Hok Hf I) as [Hcs Hread].
+  unfold deserialize_entries, puts. rewrite sdeltas_deltas by assumption.
+  rewrite <- !app_assoc. rewrite read_put_uvarint by assumption. rewrite Nat2N.id.
+  rewrite <- (deltas_len es 0) at 1. rewrite read_n_puts by apply deltas_ok.
+  rewrite <- (map_length run es) at 1. rewrite read_n_puts.
+  2:{ apply Forall_forall. intros v Hv. apply in_map_iff in Hv. destruct Hv as [e [<- He]].
+      rewrite Forall_forall in Hok. destruct (Hok e He) as (_ & _ & _ & Hrn). change (2^32) with 4294967296 in *. change (2^64) with 18446744073709551616. lia. }
+  rewrite <- (map_length len es) at 1. rewrite read_n_puts.
+  2:{ apply Forall_forall. intros v Hv. apply in_map_iff in Hv. destruct Hv as [e [<- He]].
+      rewrite Forall_forall in Hok. destruct (Hok e He) as (_ & _ & Hl & _). change (2^32) with 4294967296 in *. change (2^64) with 18446744073709551616. lia. }
+  assert (Hlen: length cs = length es).
+  { clear -Hc. induction Hc; cbn; auto. }
+  rewrite <- Hlen at 1. rewrite read_n_puts by assumption.
+  apply build_general; [assumption|change (2^64) with 18446744073709551616; lia|assumption].
 Qed.
